@@ -69,8 +69,10 @@ var hdrNames = []string{"X-K", "X-Ver", "Accept", "x-k", "Content-Type", "X-K", 
 	"X-Request-Id", "X-Request-Start", "X-Forwarded-For", "User-Agent", "Accept-Encoding", "Content-Length", "Connection", "Host", "Date", "Traceparent"}
 var hdrExprs = []string{"", "^v[0-9]$", "json", "^(a|b)$", "Chrome", "^$", "1", "(?i)^v1$", "(?i)chrome", "^(?i:a)$", "^zz$", "(?s)^.b.$",
 	// an expression is a regular expression as it stands: slashes around it are two more characters to match
-	"/^v1$/", "/json/", "/a/"}
-var hdrValues = []string{"", "v1", "v22", "application/json", "a", "b", "Chrome/1", "zz", " v1", "v1 ", "\ta", "b\n", " ", "zz, v1", "v1,zz", "x,a", "a, b", "text/html, application/json", "v1;q=1", "a|b", "V1", "CHROME/1", "A", "ZZ", "\nb\n", "/a/", "application/json/x"}
+	"/^v1$/", "/json/", "/a/",
+	// a header value is the bytes the client sent - in no particular encoding
+	"^Orléans$", "^caf\\x{FFFD}$", "^[^a-zÿ]+$", "^.{3}$", "^café$"}
+var hdrValues = []string{"", "v1", "v22", "application/json", "a", "b", "Chrome/1", "zz", " v1", "v1 ", "\ta", "b\n", " ", "zz, v1", "v1,zz", "x,a", "a, b", "text/html, application/json", "v1;q=1", "a|b", "V1", "CHROME/1", "A", "ZZ", "\nb\n", "/a/", "application/json/x", "Orl\xe9ans", "Orléans", "caf\xe9", "café", "\xff\xfe", "caf\ufffd", "a\xffb"}
 
 func genPairs(rng *rand.Rand) []string {
 	if rng.Intn(25) == 0 {
